@@ -5,11 +5,13 @@
                      whose 2nd and 3rd bytes are 'XA' (1.10 / 1.12: the NM entry opens the System Use area, so these are
                      bytes 6..7 of it): XARecord.parse took the area for a Yellow Book record, open raised 'Unused fields
                      should be 0' (repro_xa_name.py); with the repaired probe the same image opens
-     parse_rr_version_refuted                 Rock Ridge 1.10 is reopened as 1.09 (already for the EMPTY image): a record
-                     added after reopen carries an RR entry the original object does not write
-     parse_rr_master_dup_refuted              two records with one identifier inside a directory called RR_MOVED: open
-                     lists them in the opposite order; the graph is not the writer's, and mastering the reopened state
-                     does not give the image back (repro_rrmoved_dups.py: open + write is not a fixpoint)
+     parse_rr_version_110_ok / parse_rr_rr_in_ce_ok   regression witnesses for two defects this model found and /repo
+                     repaired: 1.10 was reopened as 1.09 (before 2755ef8; repro_version_110.py); a 1.09 record whose RR
+                     entry lies in the continuation area made open raise 'Inconsistent Rock Ridge versions' (between
+                     2755ef8 and 26337bc; repro_rr_in_ce.py).  Both now reopen with the writer's version.
+     prr_dup_now_refused                      before 86e3993 add_directory accepted a second record of the same name
+                     inside a directory called RR_MOVED; open listed the two in the opposite order and open + write was
+                     not a fixpoint (repro_rrmoved_dups.py).  The edit is refused now (AccountRR.dup_allowed = false).
      prr_reopen_step_refuted                  after open pvd.rr_ce_blocks is in WALK order, not in creation order: the
                      same add_fp lands in another continuation block on the reopened object than on the never-closed
                      original; the images differ (repro_block_order.py)
@@ -45,35 +47,30 @@ Theorem parse_rr_rejects_nothing_valid_refuted_old :
     prr_reopen_gen false s = PInvalid 10 /\ prr_reopen s = POk (graph_of prr_dt0 s).
 Proof. exists V112, prr_w_xa. split; [discriminate|]. repeat split; vm_compute; reflexivity. Qed.
 
-(* ---- 2. the version is not always recoverable ------------------------------------------------------------------ *)
-Theorem parse_rr_version_refuted :
+(* ---- 2. the version survives the round trip (regressions of two repaired defects) -------------------------------- *)
+Theorem parse_rr_version_110_ok :
   let s := rr_run (rr_init V110) [] in
-  mrr_wf prr_dt0 s = true /\ mrr_sizes_ok s = true /\
-  exists g, prr_reopen s = POk g /\ g_ver g = V109 /\ g = graph_of prr_dt0 s /\
-            r_ver (state_of (prr_pvd s) (mrr_root_len s) g) <> r_ver s.
+  exists g, prr_reopen s = POk g /\ g_ver g = V110 /\ g = graph_of prr_dt0 s /\
+            r_ver (state_of (prr_pvd s) (mrr_root_len s) g) = r_ver s.
+Proof. cbv zeta. eexists. split; [vm_compute; reflexivity|]. repeat split; vm_compute; reflexivity. Qed.
+
+(* /AAA...A.;1 with a 190-byte identifier: dr_len 254 - 28, the 5-byte RR entry itself goes to the continuation area *)
+Definition prr_w_rrce : list rop := [RAddFile [] (repeat 65 190 ++ [46; 59; 49]) [97] 1].
+Theorem parse_rr_rr_in_ce_ok :
+  let s := rr_run (rr_init V109) prr_w_rrce in
+  snd (rr_step (rr_init V109) (hd (RRmDir []) prr_w_rrce)) = true /\ mrr_wf prr_dt0 s = true /\
+  exists g, prr_reopen s = POk g /\ g_ver g = V109 /\ g = graph_of prr_dt0 s.
 Proof.
   cbv zeta. split; [vm_compute; reflexivity|]. split; [vm_compute; reflexivity|].
-  eexists. split; [vm_compute; reflexivity|]. split; [reflexivity|]. split; [vm_compute; reflexivity|].
-  vm_compute. discriminate.
+  eexists. split; [vm_compute; reflexivity|]. split; vm_compute; reflexivity.
 Qed.
 
-(* ---- 3. duplicates inside RR_MOVED ------------------------------------------------------------------------------- *)
+(* ---- 3. duplicates inside RR_MOVED are refused now ------------------------------------------------------------------ *)
 Definition prr_w_dup : list rop :=
-  [RAddDir [] RR_MOVED [113]; RAddDir [RR_MOVED] [88] [102; 105; 114; 115; 116];
-   RAddDir [RR_MOVED] [88] [115; 101; 99; 111; 110; 100]].
-
-Theorem parse_rr_master_dup_refuted :
-  let s := rr_run (rr_init V109) prr_w_dup in
-  mrr_wf prr_dt0 s = true /\ mrr_sizes_ok s = true /\ prr_tree_ok s = false /\
-  exists g, prr_reopen s = POk g /\ g <> graph_of prr_dt0 s /\
-    prr_opt_image_eqb (master_rr prr_dt0 (state_of (prr_pvd s) (mrr_root_len s) g)) (master_rr prr_dt0 s) = false.
-Proof.
-  cbv zeta. split; [vm_compute; reflexivity|]. split; [vm_compute; reflexivity|]. split; [vm_compute; reflexivity|].
-  eexists. split; [vm_compute; reflexivity|]. split; [|vm_compute; reflexivity].
-  intros E. apply (f_equal (fun g => prr_egraph_eqb (prr_egraph_of g)
-                                       (prr_egraph_of (graph_of prr_dt0 (rr_run (rr_init V109) prr_w_dup))))) in E.
-  vm_compute in E. discriminate E.
-Qed.
+  [RAddDir [] RR_MOVED [113]; RAddDir [RR_MOVED] [88] [102; 105; 114; 115; 116]].
+Theorem prr_dup_now_refused :
+  snd (rr_step (rr_run (rr_init V109) prr_w_dup) (RAddDir [RR_MOVED] [88] [115; 101; 99; 111; 110; 100])) = false.
+Proof. vm_compute. reflexivity. Qed.
 
 (* ---- 4. the order of the continuation blocks after open ------------------------------------------------------------ *)
 (* /D ; /D/A.;1 with a 1200-byte name (block 0, first used below /D) ; /B.;1 with a 1200-byte name (block 1, first used
@@ -114,7 +111,8 @@ Proof.
 Qed.
 
 Print Assumptions parse_rr_rejects_nothing_valid_refuted_old.
-Print Assumptions parse_rr_version_refuted.
-Print Assumptions parse_rr_master_dup_refuted.
+Print Assumptions parse_rr_version_110_ok.
+Print Assumptions parse_rr_rr_in_ce_ok.
+Print Assumptions prr_dup_now_refused.
 Print Assumptions prr_reopen_step_refuted.
 Print Assumptions prr_reopen_space_refuted.
